@@ -441,6 +441,24 @@ func (g *c11Gen) step() bool {
 		op = 20
 	}
 	switch {
+	case op < 3: // a literal with indices: elements where the indices say, zero values between them, any order
+		idx := []int{0, 1, 2, 3, 4, 5}
+		for i := len(idx) - 1; i > 0; i-- {
+			j := r.Intn(i + 1)
+			idx[i], idx[j] = idx[j], idx[i]
+		}
+		idx = idx[:1+r.Intn(3)]
+		n := 0
+		var xs []string
+		for _, k := range idx {
+			xs = append(xs, fmt.Sprintf("%d: %s", k, g.lit(k)))
+			if k+1 > n {
+				n = k + 1
+			}
+		}
+		g.w("%s = []%s{%s}\n", v, g.T, strings.Join(xs, ", "))
+		g.views[v] = g.fresh(n)
+		g.feat["indexed-literal"] = true
 	case op < 10:
 		n := r.Intn(6)
 		var xs []string
